@@ -144,6 +144,15 @@ func VerifH_StaticChecks() {
 			}
 		}
 		verifrt.Assert("C11.diagnostic-at-a-directive", at)
+		verifrt.Assert("C02.doc.diagnostic-at-a-directive", at)
+		if last := len(lines) - 1; len(ff) == 1 && ff[0].b == last && ff[0].a != ff[0].b {
+			// the document is fine without its last line and that line completes the only fault (a duplicate
+			// or a second singleton): the diagnostic is at one of the two directives that make it up
+			if _, jePrefix := verifRun(verifRender(lines[:last])); jePrefix == nil {
+				verifrt.Assert("C02.doc.diagnostic-at-the-faulty-directive", int(je.Index()) == offs[ff[0].a] || int(je.Index()) == offs[ff[0].b])
+				verifrt.Reach("C02.doc.single-fault", true)
+			}
+		}
 		verifrt.Reach("C11.fault-rejected", true)
 	}
 }
